@@ -13,9 +13,9 @@ from ..core import Machinery
 INV = ["RoundTrip", "ChunkRules", "DataComplete", "ChunkingIndependent"]
 
 
-def cfg(chunk=4, segs=2, msgs=2, mlen=2, bug="none", emit=False):
-    return ("CONSTANTS CHUNK = %d\nMaxSegs = %d\nMaxMsgs = %d\nMaxLen = %d\nBug = \"%s\"\nSPECIFICATION Spec\n%s%sCHECK_DEADLOCK FALSE\n"
-            % (chunk, segs, msgs, mlen, bug, "".join("INVARIANT %s\n" % i for i in INV), "INVARIANT Emit\n" if emit else ""))
+def cfg(chunk=4, segs=2, msgs=2, mlen=2, bug="none", emit=False, empties=False):
+    return ("CONSTANTS CHUNK = %d\nMaxSegs = %d\nMaxMsgs = %d\nMaxLen = %d\nBug = \"%s\"\nEmpties = %s\nSPECIFICATION Spec\n%s%sCHECK_DEADLOCK FALSE\n"
+            % (chunk, segs, msgs, mlen, bug, "TRUE" if empties else "FALSE", "".join("INVARIANT %s\n" % i for i in INV), "INVARIANT Emit\n" if emit else ""))
 
 
 def member_event(name, data):
@@ -236,8 +236,10 @@ def run(ctx):
     res = ctx.tlc("IWAFrame", cfg(4, 2, 2, 2), what="MC_IWAFrame[CHUNK=4, <=2 segs x <=2 msgs, all re-chunkings]", timeout=3000)
     if res.violated:
         raise Machinery("IWAFrame.tla violates %s" % res.violated)
-    for bug, inv in (("StaleLength", "RoundTrip"), ("LenField2Bytes", True), ("Boundary", "ChunkRules"), ("DecLen2Bytes", True)):
-        ctx.tlc("IWAFrame", cfg(4, 1, 2, 2, bug=bug), what="Bug_%s" % bug, expect_violation=inv, count=False)
+    ctx.tlc("IWAFrame", cfg(4, 2, 1, 2, empties=True), what="MC_IWAFrame[re-chunkings with an empty chunk anywhere]", timeout=3000)
+    for bug, inv in (("StaleLength", "RoundTrip"), ("LenField2Bytes", True), ("Boundary", "ChunkRules"), ("DecLen2Bytes", True),
+                     ("EmptyChunkEndsStream", "ChunkingIndependent")):
+        ctx.tlc("IWAFrame", cfg(4, 1, 2, 2, bug=bug, empties=(bug == "EmptyChunkEndsStream")), what="Bug_%s" % bug, expect_violation=inv, count=False)
     # ---- spec -> code: synthetic archives, framed by the harness at TLC's cuts, decoded by the library
     ctx.stage("synthetic")
     rng = random.Random(ctx.seed + 5)
@@ -307,11 +309,20 @@ def run(ctx):
             cutsets.append(fixed)
         if T:
             cutsets.append([1] * min(T, 50) + ([T - 50] if T > 50 and T - 50 <= CH else [min(CH, T - 50 - i) for i in range(0, max(0, T - 50), CH)] if T > 50 else []))
+        if T:
+            # coinciding cut points: an empty chunk at the start, between two segments' worth of data, in the middle of the stream
+            # (stored: length field 0 and no payload; compressed: the one-byte snappy block of nothing)
+            half = min(CH, T // 2) or T
+            rest = [min(CH, T - half - i) for i in range(0, T - half, CH)]
+            cutsets.append([0] + [half] + rest)
+            cutsets.append([half, 0] + rest)
+            if len(rest) >= 1:
+                cutsets.append([half] + rest[:1] + [0, 0] + rest[1:])
         if CH < T < 2 ** 24:
             cutsets.append([T])                       # the whole stream as one chunk
             cutsets.append([T - CH // 2, CH // 2])
         for cuts in cutsets:
-            if sum(cuts) != T or any(c >= 2 ** 24 or c <= 0 for c in cuts):
+            if sum(cuts) != T or any(c >= 2 ** 24 or c < 0 for c in cuts):
                 continue
             for stored_mode in (0, 1, 2):
                 stored = set() if stored_mode == 0 else (set(range(len(cuts))) if stored_mode == 1 else {k for k in range(len(cuts)) if rng.random() < 0.5})
